@@ -159,6 +159,10 @@ def term_ir(t):
             frac *= f2
             for p, k in r2.items():
                 roots[p] = roots.get(p, 0) + k
+        elif (isinstance(o, Pow) and isinstance(o.args[0], (F, Fd))
+              and o.args[1].is_Integer and o.args[1] > 0):
+            # a+_p a+_p is printed as a power by sympy
+            factors.extend([factor_ir(o.args[0])] * int(o.args[1]))
         elif isinstance(o, Mul):  # unevaluated nested Mul
             sub = term_ir(o)
             frac *= sub[0]
